@@ -135,17 +135,22 @@ CHECKS["C03"] = dict(
                 "replaced by recording stand-ins; on every path each backend call that reads or changes bucket/object data must be preceded by a "
                 "granted decision for the corresponding S3 action on exactly the bucket/object the call names, per key for batch deletes and for "
                 "the source of copies. (b) the decision functions themselves (real VerifyAccess, VerifyObjectCopyAccess, VerifyBucketPolicy) "
-                "against a reference: root/admin bypass, policy-else-ACL, symbolic caller/grantee/principal ids.",
+                "against a reference: root/admin bypass, policy-else-ACL, symbolic caller/grantee/principal ids. (c) the real router code "
+                "(S3ApiRouter.Init) is executed with route registration recorded; every admin (PATCH) route's installed handler chain is run for admin / "
+                "userplus / user callers: a non-admin neither changes nor lists accounts or bucket owners.",
     harnesses=[
         dict(name="H03b-routes", pkgs=["./s3api"], entry="s3api.VfAccess", redirects="spec/redirects_ctrl_stub.json", reach=["returned", "batch-delete"],
              key_trace=['"route='], panic_ok=True),
         dict(name="H03a-policyfold", pkgs=["./auth"], entry="auth.VfPolicyFold", redirects="spec/redirects_policy.json", reach=["allowed", "denied"]),
         dict(name="H03a-verifyaccess", pkgs=["./s3api"], entry="s3api.VfVerifyAccess", redirects="spec/redirects_ctrl.json", reach=["granted", "denied"]),
         dict(name="H03a-copyaccess", pkgs=["./s3api"], entry="s3api.VfCopyAccess", redirects="spec/redirects_ctrl.json", reach=["granted", "denied"]),
+        dict(name="H03c-admin", pkgs=["./s3api"], entry="s3api.VfAdminRoutes", redirects="spec/redirects_ctrl.json", reach=["non-admin", "admin-served"],
+             key_trace=['"route=']),
     ],
     assumptions=["fiber context, backend and XML/JSON decoding are models", "the table backend-method -> required S3 action (harness/tree/s3api/zz_vf_access.go) "
                  "follows the AWS action names; look-ups a route makes for its own decisions are whitelisted explicitly"],
-    outside=["headers outside the stated set", "ListBuckets ownership filter (posix; not built)", "admin API role gate", "native replay (the stand-ins exist only in the engine)"],
+    outside=["headers outside the stated set", "ListBuckets ownership filter is checked under C16 (H16b-listbuckets); the GET / route handler itself is not in the route table of H03b",
+             "admin API on its own port (NewAdminServer wiring)", "native replay (the stand-ins exist only in the engine)"],
 )
 
 CHECKS["C10"] = dict(
